@@ -22,8 +22,9 @@ MUTANTS = [
     {"id": "c03-hmm-assert", "property": "C03", "expect": ["T2"],
      "why": "revert of repair ab72414",
      "edits": [{"file": SEG,
-                "old": "    ignore += params.ANTITARGET_ALIASES\n    cdata = cnarr.data.reset_index()",
-                "new": "    ignore += params.ANTITARGET_ALIASES\n    assert bins_chrom == segments.chromosome.iat[0]\n"
+                "old": "    ignore = tuple(ignore) + params.ANTITARGET_ALIASES\n    cdata = cnarr.data.reset_index()",
+                "new": "    ignore = tuple(ignore) + params.ANTITARGET_ALIASES\n"
+                       "    assert bins_chrom == segments.chromosome.iat[0]\n"
                        "    cdata = cnarr.data.reset_index()"}]},
     {"id": "c03-stretch-unguarded", "property": "C03", "expect": ["T1", "T2", "T4"],
      "why": "effective stretch without the same-chromosome guard moves an hmm segment to a foreign coordinate",
@@ -190,6 +191,11 @@ def _to_str(s, enc=locale.getpreferredencoding()):'''}]},
      "edits": [{"file": "cnvlib/call.py",
                 "old": "        filters = list(filters)\n",
                 "new": ""}]},
+    {"id": "c10-ignore-list-extended", "property": "C10", "expect": ["A1"],
+     "why": "revert of repair 4360292: by_gene extends the caller's ignore list in place",
+     "edits": [{"file": "cnvlib/cnary.py",
+                "old": "        ignore = tuple(ignore) + params.ANTITARGET_ALIASES\n",
+                "new": "        ignore += params.ANTITARGET_ALIASES\n"}]},
     {"id": "c10-shortname-tie", "property": "C10", "expect": ["R2"],
      "why": "revert of repair 9d8144c",
      "edits": [{"file": "cnvlib/target.py",
